@@ -9,4 +9,4 @@ for l in sys.stdin:
     if d.get('level')=='error':
         print(d['message'][:300]);
         for s in d['spans']: print('   ',s['line_start'], s.get('label'), s['is_primary'], s['text'][0]['text'].strip()[:220] if s['text'] else '')
-" | head -${VQ_HEAD:-60}
+" | head -${VQ_HEAD:-40}
